@@ -6,6 +6,7 @@ import MdkVerif.Props.C06Wrap
 import MdkVerif.Props.C06Ffi
 import MdkVerif.Props.C08
 import MdkVerif.Proofs.Insert
+import MdkVerif.Props.C10Limits
 /-
   C06 — a refused event has no effect (the frame part; absence of panics is a runtime fact that the
   harness searches for, totality of the model is NOT presented as a no-panic proof).
@@ -600,5 +601,10 @@ theorem first_refusal_wins (l : List (Stage × V3)) (h : ∀ p ∈ l, p.2 ≠ .u
   C06Ffi.first_refusal_wins l h
 
 end Ffi
+
+/-! ### storage level: a storage call that the backend's validation refuses has no effect (proved in Props/C10Limits.lean over
+    Model/StoreLimits.lean, the validation tables regenerated from both backends; exercised by the hostile store stream) -/
+theorem refused_store_call_no_effect : type_of% @C10Limits.refused_store_call_no_effect := @C10Limits.refused_store_call_no_effect
+theorem refused_store_calls_deletable : type_of% @C10Limits.refused_calls_deletable := @C10Limits.refused_calls_deletable
 
 end MdkVerif.Props.C06
